@@ -29,7 +29,8 @@ claim("C02",
       "pages' row slices concatenate to exactly the frame's rows (one metadata entry per row, non-decreasing greedy page "
       "numbers, build_pages ranges summing to the row count, re-slicing by those lengths); C02_page_rows - a page rendered in "
       "segments around group headings is an order-preserving interleaving of its data rows (each once, at its own offset) "
-      "with heading rows; page slices taken by cumulative heights partition the rows; segment-wise rendering "
+      "with heading rows, and C02_page_body / C02_section_bounds assemble them: every rendered page of every such section is "
+      "pre ++ body ++ post with body an interleaving of headings and table_encode of exactly that page's row slice; page slices taken by cumulative heights partition the rows; segment-wise rendering "
       "with carried offsets equals whole-page rendering (no row dropped or duplicated at a group boundary); one rendered "
       "row per frame row and one cell per value; column removal preserves order. The predicate check_c02 (tags 0..n-1 in "
       "order per section, every visible cell text equal to the value's display text) is evaluated on the parsed output of "
